@@ -2,4 +2,6 @@ open Datatypes
 
 val add : nat -> nat -> nat
 
+val mul : nat -> nat -> nat
+
 val sub : nat -> nat -> nat
